@@ -107,16 +107,20 @@ def check_validator(ctx: Ctx, rep: Report) -> None:
     rep.check(ok_ne, "C07-R2", site, "different ids raise InvalidResponseId on every path", f"outcomes for different ids: {ne_out}", key=f"{fn.key}|refuse-different")
 
 
-def response_id_like(defs, expr: ast.AST, resp_names) -> bool:
-    """``<decoded response>....request_id`` (any attribute path ending in request_id / message_id)."""
+def response_id_like(defs, expr: ast.AST, resp_names, field: str = "request_id") -> bool:
+    """``<decoded response>.....<field>``: the PDU's request_id for an exchange, the header's message_id for discovery."""
     expr = strip_casts(expr)
     if isinstance(expr, ast.Name):
         val = defs.single(expr.id)
-        return val is not None and response_id_like(defs, val, resp_names)
-    return isinstance(expr, ast.Attribute) and expr.attr in ("request_id", "message_id") and mentions(expr, resp_names)
+        return val is not None and response_id_like(defs, val, resp_names, field)
+    if not (isinstance(expr, ast.Attribute) and expr.attr == field and mentions(expr, resp_names)):
+        return False
+    if field == "message_id":
+        return isinstance(expr.value, ast.Attribute) and expr.value.attr == "header"
+    return True
 
 
-def validation_after(ctx: Ctx, fn: FuncInfo, sender_call: ast.Call, id_vn, rep: Report, rule: str, what: str) -> None:
+def validation_after(ctx: Ctx, fn: FuncInfo, sender_call: ast.Call, id_vn, rep: Report, rule: str, what: str, field: str = "request_id") -> None:
     """Every path from the sender call to a normal return passes validate(id, <response id>)."""
     cfg = ctx.cfg(fn)
     defs = ctx.defs(fn)
@@ -146,12 +150,12 @@ def validation_after(ctx: Ctx, fn: FuncInfo, sender_call: ast.Call, id_vn, rep: 
         if len(sent) != 1:
             continue
         other = vals[1 - sent[0]]
-        if response_id_like(defs, other, resp_names):
+        if response_id_like(defs, other, resp_names, field):
             node = cfg_node_of(cfg, call)
             if node is not None:
                 good_nodes.append(node)
     if not good_nodes:
-        rep.violated(rule, site, text, "no call of validate_response_id compares the id that was sent with the id of the decoded response", key=f"{fn.key}|no-validation")
+        rep.violated(rule, site, text, f"no call of validate_response_id compares the id that was sent with the {'msgID of the reply header (RFC 3412: the msgID is what matches a reply to its request)' if field == 'message_id' else 'request-id of the decoded response PDU'}", key=f"{fn.key}|no-validation")
         return
     ok = cfg.must_pass(snode, [cfg.exit], good_nodes)
     wit = None
@@ -321,6 +325,7 @@ def check_community_model(ctx: Ctx, rep: Report, cls: ClassInfo, want_version: i
 
     def scenario(version_ok: bool, community_ok: bool):
         def classify(cmp: ast.Compare) -> Optional[bool]:
+            cmp = defs.expand(cmp)  # type: ignore[assignment]
             left, right = cmp.left, cmp.comparators[0]
             idx_l, idx_r = field_index(left), field_index(right)
             op = cmp.ops[0]
@@ -334,7 +339,12 @@ def check_community_model(ctx: Ctx, rep: Report, cls: ClassInfo, want_version: i
                     compared.append(None)
             elif (idx_l == 1) != (idx_r == 1):
                 other = right if idx_l == 1 else left
-                if mentions(other, [cred_param]) and "community" in norm(other):
+                mine = left if idx_l == 1 else right
+                # an exact comparison: the received octets as they are against the configured community's octets
+                exact_field = isinstance(mine, ast.Call) and isinstance(mine.func, ast.Attribute) and mine.func.attr == "pythonize" and not mine.args and isinstance(mine.func.value, (ast.Name, ast.Subscript))
+                exact_field = exact_field or (isinstance(mine, ast.Attribute) and mine.attr == "value" and isinstance(mine.value, (ast.Name, ast.Subscript)))
+                exact_other = norm(other) in (f"{cred_param}.community.encode('ascii')", f"{cred_param}.community.encode('utf8')", f"{cred_param}.community.encode('utf-8')", f"{cred_param}.community.encode()", f"{cred_param}.community")
+                if exact_field and exact_other:
                     which = "community"
             if which is None:
                 return None
@@ -421,7 +431,7 @@ def check_discovery(ctx: Ctx, rep: Report) -> None:
     vn_header = value_number(defs, header_ids[0])
     vn_pdu = value_number(defs, pdu_ids[0])
     rep.check(vn_header == vn_pdu and vn_header[0] in ("def", "param"), "C07-R5", site, "probe header message id and probe PDU request id are one value", f"{vn_header} vs {vn_pdu}", key=f"{fn.key}|probe-ids")
-    validation_after(ctx, fn, sends[0], vn_header, rep, "C07-R5", "discovery")
+    validation_after(ctx, fn, sends[0], vn_header, rep, "C07-R5", "discovery", field="message_id")
     # validation precedes the construction of the discovery data
     cfg = ctx.cfg(fn)
     vnodes = [cfg_node_of(cfg, c) for c in vcalls]
